@@ -235,7 +235,9 @@ def run(scn, want=(), fault=None, script=None, fit_faults=None, probe_limit=True
         if probe_limit and not is_finished:
             if limit["n"] is None:
                 snt = float(self.options["search_n_try"])
-                limit["w"] = int(snt) + 1
+                # A round of search_n_try searches may be empty-handed after an early success (poll skipped), and the
+                # following round may be empty too before its closing poll: at most 2*snt - 2 idle iterations in a row.
+                limit["w"] = 2 * int(snt)
                 limit["n"] = int((snt + 1) * (float(self.options["max_iter"]) + float(scn["options"].get(
                     "max_fun_evals", self.options["max_fun_evals"])) + 12) + 10)
             w = limit["w"]
